@@ -291,36 +291,31 @@ Proof.
   destruct (N.eqb_spec b 58) as [->|Hb]; [reflexivity|]. unfold symbol_text.
   destruct b as [|p]; [reflexivity|]. repeat (destruct p as [p|p|]; try reflexivity). contradiction.
 Qed.
-Lemma sym_ok_cons c inl (b : byte) r : sym_ok c inl (b :: r) =
+Lemma sym_ok_cons c (b : byte) r : sym_ok c (b :: r) =
   forallb (fun b => b <? 128) (b :: r) &&
   (if b =? 58 then negb (existsb need_pipe (b :: r)) && bare_ok (b :: r)
-   else if need_pipes (b :: r) then forallb pipe_ok_byte (b :: r) && negb inl else bare_ok (b :: r)).
+   else if need_pipes (b :: r) then forallb pipe_ok_byte (b :: r) else bare_ok (b :: r)).
 Proof.
   destruct (N.eqb_spec b 58) as [->|Hb]; [reflexivity|]. unfold sym_ok. f_equal.
   destruct b as [|p]; [reflexivity|]. repeat (destruct p as [p|p|]; try reflexivity). contradiction.
 Qed.
 
-Lemma RT_sym c inl (s : list byte) : sym_ok c inl s = true ->
-  RT (OSym s) (symbol_text c s) /\ (inl = true -> symbol_text c s = case_name (p_case c) s /\ case_name (p_case c) s <> []).
+Lemma RT_sym c (s : list byte) : sym_ok c s = true -> RT (OSym s) (symbol_text c s).
 Proof.
   destruct s as [|b r].
   - (* the empty name: || *)
-    unfold sym_ok. intros H. apply andb_true_iff in H as [_ H].
-    apply negb_true_iff in H. subst inl. split; [|discriminate].
-    exists (TLeaf (LPipe [])), (OSym []). split; [exact (Reads_pipe [] (fun b (H : In b []) => match H with end))|].
+    intros _. exists (TLeaf (LPipe [])), (OSym []). split; [exact (Reads_pipe [] (fun b (H : In b []) => match H with end))|].
     repeat split; try reflexivity; discriminate.
   - rewrite sym_ok_cons, symbol_text_cons. intros H. apply andb_true_iff in H as [Hascii H].
     set (w := case_name (p_case c) (b :: r)).
-    assert (Hbare : bare_ok (b :: r) = true -> resolve_token w = OSym w ->
-                    RT (OSym (b :: r)) w /\ (inl = true -> w = w /\ w <> [])).
+    assert (Hbare : bare_ok (b :: r) = true -> resolve_token w = OSym w -> RT (OSym (b :: r)) w).
     { intros Hb Hres. destruct (bare_reads c (b :: r) Hb Hres) as (y & HR & Ho & He & Ht & Hd & Hne).
-      split; [|intros _; split; [reflexivity|exact Hne]].
       exists (TLeaf (LTok w)), y. repeat split; try assumption. discriminate. }
     destruct (b =? 58) eqn:E58.
     + (* keyword *) apply N.eqb_eq in E58. subst b. apply andb_true_iff in H as [_ Hb]. apply Hbare; [exact Hb|apply keyword_resolves].
     + destruct (need_pipes (b :: r)) eqn:Enp.
       * (* |name| *)
-        apply andb_true_iff in H as [Hpipe Hinl]. apply negb_true_iff in Hinl. subst inl. split; [|discriminate].
+        rename H into Hpipe.
         exists (TLeaf (LPipe w)), (OSym w).
         split.
         { apply Reads_pipe. intros x Hx.
@@ -335,7 +330,7 @@ Qed.
 (* ------------------------------------------------------------------------------------------ *)
 (* every atom                                                                                    *)
 (* ------------------------------------------------------------------------------------------ *)
-Theorem RT_atom c inl x : readable_cfg c = true -> is_atom x = true -> atom_ok c inl x = true -> RT x (atom_text c x).
+Theorem RT_atom c x : readable_cfg c = true -> is_atom x = true -> atom_ok c x = true -> RT x (atom_text c x).
 Proof.
   intros Hc Ha Hok. destruct x; try discriminate Ha; cbn [atom_text atom_ok] in *.
   - apply RT_nil.
@@ -346,6 +341,6 @@ Proof.
   - apply RT_float. exact Hok.
   - apply RT_string. exact Hok.
   - apply RT_char; [|exact Hok]. unfold readable_cfg in Hc. repeat (apply andb_true_iff in Hc as [Hc ?]). exact Hc.
-  - apply (RT_sym c inl bs Hok).
+  - apply (RT_sym c bs Hok).
   - discriminate Hok.
 Qed.
